@@ -35,6 +35,10 @@ def build(shape, entries, n, rot, holder):
     Xr = np.moveaxis(np.tensordot(Q, X, axes=(1, n)), 0, n)
     if holder == "dense":
         return ttb.tensor(Xr)
+    if holder == "dense_int16":
+        # the same tensor scaled by 100 and stored with a narrow integer dtype: the leading vectors are unchanged, but
+        # a Gram matrix formed in the stored dtype would wrap around (100 w)^2 > 32767
+        return ttb.tensor(np.round(Xr * 100).astype(np.int16))
     if holder == "sparse":
         return ttb.tensor(np.where(np.abs(Xr) < 1e-14, 0.0, Xr)).to_sptensor()
     if holder == "ktensor":
@@ -170,7 +174,7 @@ def main(tier: str) -> int:
     step = 40 if tier == "quick" else 6
     cases = []
     for i, s in enumerate(stimuli[::step]):
-        for h in HOLDERS:
+        for h in HOLDERS + (["dense_int16"] if s["rot"] != "r345" else []):
             cases.append(dict(s, cls="exact", holder=h))
     sd = core.seed()
     for shape in ([4, 3, 5], [5, 4], [3, 4, 3, 2]):
@@ -186,7 +190,7 @@ def main(tier: str) -> int:
     from collections import Counter
     out.notes["cases_per_class_holder"] = {f"{k[0]}/{k[1]}": v for k, v in Counter((c["cls"], c["holder"]) for c in cases).items()}
     core.pipeline(out, "c14", behaviours, "Nvecs_Trace", lock_mode="superset", chunk=100,
-                  site_of=lambda tr, k: {"dense": "tensor", "sparse": "sptensor", "ktensor": "ktensor"}.get(
+                  site_of=lambda tr, k: {"dense": "tensor", "dense_int16": "tensor", "sparse": "sptensor", "ktensor": "ktensor"}.get(
                       tr["ev"][k - 1]["args"]["holder"], "ttensor") + ".nvecs", tags_of=tags_of)
     out.rule = ("exact class (diagonal Gram, distinct integer eigenvalues) rotated in mode n by the identity, a signed "
                 "permutation or the 3-4-5 rotation: every mode, r = 1..3 (iterative and dense branch), flipsign on/off, "
